@@ -387,9 +387,14 @@ def expand_macro(mdef, args_src):
         p = re.sub(r"\$\(\s*,\s*\)\s*\?\s*$", "", pat.strip()).strip()
         rep_name = None
         m = re.match(r"^(?P<fixed>(?:\s*\$\w+\s*:\s*\w+\s*,)*)\s*\$\(\s*\$(?P<rep>\w+)\s*:\s*\w+\s*\)\s*,\s*[\*\+]\s*$", p)
+        m2 = re.match(r"^(?P<fixed>(?:\s*\$\w+\s*:\s*\w+\s*,?)*?)\s*\$\(\s*,\s*\$(?P<rep>\w+)\s*:\s*\w+\s*\)\s*[\*\+]\s*$", p)
         if m:
             rep_name = m.group("rep")
             fixed = [x for x in _split_top(m.group("fixed")) if x]
+        elif m2:
+            # `$a:ty $(, $x:ident)*` : leading-comma repetition
+            rep_name = m2.group("rep")
+            fixed = [x for x in _split_top(m2.group("fixed")) if x]
         else:
             fixed = [x for x in _split_top(p) if x]
         names = []
